@@ -4,6 +4,7 @@ import (
 	"fmt"
 	"go/token"
 	"go/types"
+	"regexp"
 	"sort"
 	"strings"
 
@@ -302,9 +303,81 @@ func runC05(c *Ctx) {
 		"Not decided: that the mutators jointly preserve the invariant over all histories (an inductive argument), quiescent-point claims."
 	r.Rule("who-writes", "table and link fields are written only by the table mutators", 9)
 	r.Rule("locked", "table mutations hold the session mutex for writing", 8)
-	r.Rule("pairing", "creation and deletion keep index, link and list together", 10)
+	r.Rule("pairing", "creation and deletion keep index, link and list together", 15)
 	r.Rule("online", "MAC entry online flag follows its hosts", 2)
 	runC05Holders(c)
+	// unlink removes the host found from the MAC entry's list and no other (a removal that drops the hosts after it
+	// leaves them in the index without a list entry)
+	if ul := c.P.Method("", "MACEntry", "unlink"); ul != nil {
+		checkSliceRemoval(c, "pairing", "pairing MACEntry.unlink removes the host found and no other", ul, "recv.HostList", func(P string, gs []Guard) bool {
+			return hasGuard(gs, `^\(recv\.HostList\[`+regexp.QuoteMeta(P)+`\]\.Addr\.IP==arg0\.Addr\.IP\)$`) || hasGuard(gs, `^\(recv\.HostList\[`+regexp.QuoteMeta(P)+`\]==arg0\)$`)
+		})
+	} else {
+		r.Fatal("MACEntry.unlink not found")
+	}
+	// one key discipline for the host index: every lookup, insertion and deletion uses the address as it is (or every one
+	// passes it through the same normaliser). A lookup that normalises while the insertion does not misses the hosts stored
+	// under the other form: deleteHost does nothing for them and a re-bound address leaves its old host linked.
+	{
+		type use struct {
+			fn   *ssa.Function
+			ins  ssa.Instruction
+			kind string
+			cls  string
+		}
+		var uses []use
+		classify := func(k ssa.Value) string {
+			for {
+				switch t := k.(type) {
+				case *ssa.ChangeType:
+					k = t.X
+					continue
+				case *ssa.MakeInterface:
+					k = t.X
+					continue
+				case *ssa.Call:
+					if cal := t.Common().StaticCallee(); cal != nil {
+						return "through " + core.FuncName(cal)
+					}
+					return "through a call"
+				}
+				return "as it is"
+			}
+		}
+		for _, fn := range c.P.LibFunctions() {
+			core.EachInstr(fn, func(i ssa.Instruction) {
+				switch t := i.(type) {
+				case *ssa.Lookup:
+					if strings.HasSuffix(norm(t.X), ".HostTable.Table") {
+						uses = append(uses, use{fn, i, "lookup", classify(t.Index)})
+					}
+				case *ssa.MapUpdate:
+					if strings.HasSuffix(norm(t.Map), ".HostTable.Table") {
+						uses = append(uses, use{fn, i, "insert", classify(t.Key)})
+					}
+				case *ssa.Call:
+					if b, ok := t.Call.Value.(*ssa.Builtin); ok && b.Name() == "delete" && len(t.Call.Args) == 2 && strings.HasSuffix(norm(t.Call.Args[0]), ".HostTable.Table") {
+						uses = append(uses, use{fn, i, "delete", classify(t.Call.Args[1])})
+					}
+				}
+			})
+		}
+		ref := ""
+		for _, u := range uses {
+			if u.kind == "insert" {
+				ref = u.cls
+			}
+		}
+		kgk := core.NewKeyGen()
+		for _, u := range uses {
+			st := core.Proved
+			if u.cls != ref {
+				st = core.Violated
+			}
+			r.Add(core.Obligation{Rule: "pairing", Key: strings.TrimSuffix(kgk.Key("pairing host index key "+u.kind+" in "+core.FuncName(u.fn)), "#0"), Func: core.FuncName(u.fn), Pos: c.P.Pos(core.PosOf(u.ins)), Status: st,
+				Basis: "key used " + u.cls + ", like the insertion", Detail: "the host index is keyed " + u.cls + " at this " + u.kind + " and " + ref + " at the insertion: hosts stored under the other form of an address (IPv4-mapped IPv6) are not found, so they are never deleted and a re-bound address leaves its old host linked to its old MAC"})
+		}
+	}
 	// a MAC entry leaves the table only when no host refers to it any more: every call of MACTable.delete, wherever it
 	// is, runs under len(entry.HostList) == 0 (an entry that is merely offline still owns its hosts)
 	for _, fn := range c.P.LibFunctions() {
